@@ -137,6 +137,18 @@ def udp_assoc(p, lp, limit):
     return dict(kind="udp-assoc", closed_after=t, established=ok)
 
 
+def udp_over_connect(p, lp, limit):
+    """a UDP association on the http listener (CONNECT + Proxy-Protocol: udp, frames inline): like the SOCKS5 and reverse-UDP
+    associations it is governed by timeouts.udp, not by timeouts.idle"""
+    c = socket.create_connection((LOOP, lp["http"]), timeout=5)
+    c.sendall(("CONNECT %s:9 HTTP/1.1\r\nProxy-Protocol: udp\r\nProxy-Channel: inline\r\n\r\n" % LOOP).encode())
+    head = e2e.recv_until(c, b"\r\n\r\n")
+    ok = head.startswith(b"HTTP/1.1 200")
+    t = until_closed(c, limit) if ok else None
+    e2e.close_quiet(c)
+    return dict(kind="udp-assoc-connect", closed_after=t, established=ok)
+
+
 def live_idle(p, org, lp):
     c, head, extra = e2e.http_connect(lp["http"], "%s:%d" % (LOOP, org.port))
     time.sleep(0.2)
@@ -213,11 +225,11 @@ def run(tier, seed, replay=None):
         jobs += [("small", lambda: upload_then_halfclose(p, late, lp, P)),("small", lambda: silent(p, org, lp, hi + 2)), ("small", lambda: burst_then_silent(p, org, lp, hi + 2)),
                  ("small", lambda: trickle(p, org, lp, 1.2, 5, True, hi + 2)), ("small", lambda: trickle(p, sink, lp, 1.2, 5, False, hi + 2)),
                  ("small", lambda: trickle(p, org, lp, 1.7, 4, True, hi + 2)),
-                 ("small", lambda: udp_assoc(p, lp, hi + 2)), ("small", lambda: live_idle(p, org, lp))]
+                 ("small", lambda: udp_assoc(p, lp, hi + 2)), ("small", lambda: udp_over_connect(p, lp, hi + 2)), ("small", lambda: live_idle(p, org, lp))]
         for k in ("absent", "zero", "udpzero", "idlezero"):
             pk, ok, sk, lk = started[k]
             jobs += [(k, (lambda pk=pk, ok=ok, lk=lk: silent(pk, ok, lk, hi + 2))), (k, (lambda pk=pk, ok=ok, lk=lk: live_idle(pk, ok, lk))),
-                     (k, (lambda pk=pk, lk=lk: udp_assoc(pk, lk, hi + 2)))]
+                     (k, (lambda pk=pk, lk=lk: udp_assoc(pk, lk, hi + 2))), (k, (lambda pk=pk, lk=lk: udp_over_connect(pk, lk, hi + 2)))]
         if "large" in started:
             pl, ol, sl, ll = started["large"]
             jobs += [("large", lambda: silent(pl, ol, ll, 7 + TICK + SLACK + 2)), ("large", lambda: udp_assoc(pl, ll, 3 + TICK + SLACK + 2)), ("large", lambda: live_idle(pl, ol, ll))]
@@ -254,7 +266,7 @@ def run(tier, seed, replay=None):
             if set(h["idle_timeout"]) != {want} or want != period_tcp:
                 rep.fail("C13: timeouts %s: the API reports idle_timeout %s for a live TCP tunnel, the configuration says %d (model: %d)" % (cfg, h["idle_timeout"], period_tcp, want), rp)
             continue
-        period = period_udp if h["kind"] == "udp-assoc" else period_tcp
+        period = period_udp if h["kind"].startswith("udp-assoc") else period_tcp
         if h.get("established") is False:
             rep.fail("C13: %s scenario could not be set up" % h["kind"], rp)
             continue
@@ -274,7 +286,7 @@ def run(tier, seed, replay=None):
                 rep.fail("C13: timeouts %s: %s closed %.2fs after its last activity, before the period of %ds" % (cfg, h["kind"], t, period), rp)
     rep.coverage.update({
         "evaluations": n_eval, "distinct_nontrivial": len(lines) + len(dist),
-        "rule": "is_timeout on periods %s x last_read offsets around 0, the period boundary (+-400 ms), far past, and the future, release and debug arithmetic; real binary with timeouts {idle 2, udp 2}, absent, {0, 0}%s: silent tunnel, burst then silence, echo trickle at 1.2 s and 1.7 s, one-way trickle, one side finishing early while the other streams for twice the period (both orders), UDP association, API idle_timeout" % (periods, ", {7, 3}" if tier == "thorough" else ""),
+        "rule": "is_timeout on periods %s x last_read offsets around 0, the period boundary (+-400 ms), far past, and the future, release and debug arithmetic; real binary with timeouts {idle 2, udp 2}, absent, {0, 0}%s: silent tunnel, burst then silence, echo trickle at 1.2 s and 1.7 s, one-way trickle, UDP associations (SOCKS5, and CONNECT udp on the http listener), one side finishing early while the other streams for twice the period (both orders), UDP association, API idle_timeout" % (periods, ", {7, 3}" if tier == "thorough" else ""),
         "input_distribution": dict(dist), "model_impl_disagreements": n_diff,
     })
     rep.assumptions = ["wall-clock thresholds: period - 0.05 s .. period + 1 s tick + %.1f s slack" % SLACK]
